@@ -4,7 +4,7 @@ import Driver.Cmds
 namespace Driver.Misc
 open Driver Varlink
 
-def kindOfTok (t : String) : FdKind := if t == "sock" then .listeningSocket else .other
+def kindOfTok (t : String) : FdKind := if t == "sock" || t == "tcp" then .listeningSocket else .other
 
 /-- `act <pid> <LISTEN_PID opt> <LISTEN_FDS opt> <LISTEN_FDNAMES opt> <kind fd3> <kind fd4> <kind fd5> | <observed>` -/
 def cmdAct : P String := do
@@ -138,6 +138,7 @@ def cmdAddr : P String := do
 
 inductive ROpTok where
   | register (n d : Bytes) | listen | open_ | close | shutdown
+  | rebind                         -- a second Bind while serving (refused): no effect on the state
   | info | desc (n : Bytes)       -- queries in the middle of a history: no effect on the state
 
 def regOpP : P ROpTok := do
@@ -148,6 +149,7 @@ def regOpP : P ROpTok := do
   | "open" => pure .open_
   | "close" => pure .close
   | "shutdown" => pure .shutdown
+  | "rebind" => pure .rebind
   | "info" => pure .info
   | "desc" => do let n ← bytes; pure (.desc n)
   | _ => throw s!"bad reg op {k}"
@@ -159,6 +161,7 @@ def ROpTok.toOp : ROpTok → Option RegOp
   | .close => some .connCloses
   | .shutdown => some .shutdownCompletes
   | .info => none
+  | .rebind => none
   | .desc _ => none
 
 def regResStr : RegResult → String
